@@ -244,6 +244,11 @@ void h_uri_compose_parse(void) {
     struct aws_uri u;
     int rc = verif_uri_init_parse(&u, verif_allocator(), &c);
     if (LEN == 0) { ASSERT(rc == AWS_OP_ERR, "uri: empty string rejected"); WITNESS("uri empty"); return; }
+    if (EMPTY_HOST && !HAS_USER && !HAS_PORT && !HAS_PATH && !HAS_QUERY) { /* "s://": nothing follows the scheme; the parser documents this as malformed input */
+        ASSERT(rc == AWS_OP_ERR && aws_last_error() == AWS_ERROR_MALFORMED_INPUT_STRING, "uri: a scheme with nothing after it is rejected as malformed (empty authority and no path)");
+        WITNESS("uri scheme only");
+        return;
+    }
     check_parsed(&u, rc);
 }
 /* the builder formats the port with snprintf("%u") (libc): decimal model, format asserted */
